@@ -236,6 +236,7 @@ def infinity_stream(ctx):
 def explore(ctx):
     _explore0(ctx)
     infinity_stream(ctx)
+    huge_integer_threshold_stream(ctx)
     rng = ctx.rng('floatthr')
     for arr, t, kind in float_threshold_cases(rng, ctx.quick) + int_threshold_cases(rng, ctx.quick) + bigint_threshold_cases(rng, ctx.quick):
         try:
@@ -250,4 +251,37 @@ def explore(ctx):
 
 
 def matches_known(k, case, fails, extra):
-    return False
+    return k['id'] == 'K10' and bool(extra) and extra.get('integer_threshold_rounded_on_float_data') is True and len(fails) == 1
+
+
+def huge_integer_threshold_stream(ctx):
+    """float64 data and an INTEGER min_value beyond 2**53 that is not a double (K10): the threshold is rounded to a double
+    before the comparison, so a pixel strictly above it can be left out.  Representable integers must behave exactly."""
+    from astrodendro import Dendrogram
+    rng = ctx.rng('c01-hugeint')
+    for it in range(10 if ctx.quick else 100):
+        base = 2 ** rng.choice([53, 54, 60])
+        step = base // 2 ** 52                       # spacing of doubles there (2, 4, 256)
+        vals = [base + step * rng.randint(1, 9) for _ in range(rng.randint(2, 6))]
+        if it == 0:
+            base, step, vals = 2 ** 53, 2, [2 ** 53 + 4, 2 ** 53 + 8]
+        t = base + step * rng.randint(0, 5) + (rng.choice([1, step - 1]) if (it % 2 == 0) else 0)
+        if it == 0:
+            t = 2 ** 53 + 3
+        mv = t if rng.random() < 0.5 else np.int64(t)
+        arr = np.array([float(v) for v in vals])
+        info = {'stream': 'integer threshold beyond 2**53 on float64 data', 'data': vals, 'min_value': int(t), 'given_as': type(mv).__name__}
+        try:
+            d = Dendrogram.compute(arr, min_value=mv)
+            lab = d.index_map.ravel().tolist()
+            bad = [i for i, v in enumerate(vals) if (v > t) != (lab[i] >= 0)]
+        except Exception as e:
+            ctx.oracle_failure(info, ['raised %r' % (e,)], {})
+            continue
+        ctx.count('huge_integer_thresholds')
+        ctx.case_done(None, ('hugeint', it))
+        if bad:
+            exact = float(t) == t
+            ctx.oracle_failure(info, ['pixels %s are labelled / unlabelled against the rule "strictly above min_value=%d" (labels %s)' % (bad, t, lab)],
+                               {'integer_threshold_rounded_on_float_data': not exact})
+
